@@ -59,6 +59,20 @@ TAP_TXIN = ("020000000001010aa633878f200c80fc8ec88f13f746e5870be7373ad5d78d22e14
             "7e0052b0ec6736ee13392940b7932571ce91659f71e899210b8daaf6f17027500000000")
 TAP_PREIMAGE = "107661134f21fc7c02223d50ab9eb3600bc3ffc3712423a1e47bb1f9a9dbf55f"
 
+# spends synthesised once by mc_gen (reference model): output types and the annex, which doc/txs does not contain
+GEN_PAIRS = {
+    'gen-bare-multisig': ('0200000002e4fe85640b0d33b1d0031fb43a2818c3d764a4f44ba504d111825249c2b75f870000000000feffffff9b1a40cc0d52878fa1ff39058caba4ed95bf13c95c8d9f51e7bb04df1407233701000000490047304402201c3ecc49111801c95d620c1b61eebbdadaf8ea37af50dbe207926e89a6b57fec022022c39b14e5780296b4874447e2139bd4d98c071a4e5155cfbe7f0fc7fe67490501feffffff028813000000000000160014b3756bd3b402b3b62ff8e67bfdcd55f4d598a7cb102700000000000016001455385a35cf4268f85656c5f35bf016ea3ade492b00000000',
+        '0100000001639f78fb7729d09dc6066a6dd81997572d2413c50b703edd5b378166b5466b2d000000000151ffffffff03e8030000000000001976a91482390396aed3dfece64e2ec6ad0a3666b9ad3f0588ac00e1f50500000000475121025c078555a2fc2973842e8bf149a52baa576da0014ea5ab79c3c0c8cfb14ced1f2102100a01a3b78272dc38696b2abd2355e4fb8bd805952493d1c2278d5f0e8eb77d52aeea030000000000001976a914af911a35998cbd5500f92999495897823e7043c688ac00000000'),
+    'gen-p2sh-p2wsh': ('02000000000102e4fe85640b0d33b1d0031fb43a2818c3d764a4f44ba504d111825249c2b75f870000000000feffffffa2434300dac1efd8df8090e1e7d7aa4813c04339b2611011c9f1362184d491cc01000000232200200676bcbf2c7a1d26a71e0d2659653813b227f2e3345a127eaba66ad87355f60cfeffffff028813000000000000160014b3756bd3b402b3b62ff8e67bfdcd55f4d598a7cb102700000000000016001455385a35cf4268f85656c5f35bf016ea3ade492b0003004830450221008203816dd27b15b95460212c23eb8e7dc59d93228dccd50edde74834005c188b0220017453547c74e2e46a2d4e828c41607066c5839aebe85bfdd5ad13b04c2f792901475121025c078555a2fc2973842e8bf149a52baa576da0014ea5ab79c3c0c8cfb14ced1f2102100a01a3b78272dc38696b2abd2355e4fb8bd805952493d1c2278d5f0e8eb77d52ae00000000',
+        '0100000001639f78fb7729d09dc6066a6dd81997572d2413c50b703edd5b378166b5466b2d000000000151ffffffff03e8030000000000001976a91482390396aed3dfece64e2ec6ad0a3666b9ad3f0588ac00e1f5050000000017a914a1c3ce756e2404e5b1db5814b83f01662029df6a87ea030000000000001976a914af911a35998cbd5500f92999495897823e7043c688ac00000000'),
+    'gen-p2tr-key-annex': ('02000000000101928f36aacc026ee1cb1a728f122cf262bd8d48e57baa6333f1e47986dd7cdf0b0100000000feffffff028813000000000000160014b3756bd3b402b3b62ff8e67bfdcd55f4d598a7cb102700000000000016001455385a35cf4268f85656c5f35bf016ea3ade492b0241dcfdb10fd45259f6a8decf6a4fa8c42f074bda65f990951382873db1be1da381b8470483d78ed0226e8b8dea82d78744739b8c3f3837cc58b061f155976f1fbf010450aabbcc00000000',
+        '0100000001639f78fb7729d09dc6066a6dd81997572d2413c50b703edd5b378166b5466b2d000000000151ffffffff03e8030000000000001976a91482390396aed3dfece64e2ec6ad0a3666b9ad3f0588ac00e1f5050000000022512081b2e286ea350a7ac355f82857f25cc87b76ebafc6d4cf37e7df7fd749e05512ea030000000000001976a914af911a35998cbd5500f92999495897823e7043c688ac00000000'),
+    'gen-p2ts-path2-annex': ('020000000001017a6a373102ccacd4f765bf70c78b44e2944b6fe3723e6fabee5a0ccc7c70ff480100000000feffffff028813000000000000160014b3756bd3b402b3b62ff8e67bfdcd55f4d598a7cb102700000000000016001455385a35cf4268f85656c5f35bf016ea3ade492b044117a930e0ebbcdc0638cbe3f4ac72570b7c60a759cbac7508cf898d772e7267535f829d0fc0e6022e2158dd9b03057cf984e10f3e934e0ef8bacb3f793ef8977c012220100a01a3b78272dc38696b2abd2355e4fb8bd805952493d1c2278d5f0e8eb77dac61c15c078555a2fc2973842e8bf149a52baa576da0014ea5ab79c3c0c8cfb14ced1fff333736e6719456cfb693d3a3613a3b4a3c1b0f142d1308dd815fa2d6fb4a6b0030a79be0e10178c99f5194c80060fc9e5bb9ad0fea76dd3daa23841c5709c00450aabbcc00000000',
+        '0100000001639f78fb7729d09dc6066a6dd81997572d2413c50b703edd5b378166b5466b2d000000000151ffffffff03e8030000000000001976a91482390396aed3dfece64e2ec6ad0a3666b9ad3f0588ac00e1f50500000000225120fd11e9d6eeeafe6faf47568f838b92888f0bf2a4461e57c8c97d6bd28823b2acea030000000000001976a914af911a35998cbd5500f92999495897823e7043c688ac00000000'),
+    'gen-p2wsh': ('02000000000102e4fe85640b0d33b1d0031fb43a2818c3d764a4f44ba504d111825249c2b75f870000000000feffffff09c7bbfa1c76902299a2fdbfeb58bd6debfd759d523cacb36a95278f783504930100000000feffffff028813000000000000160014b3756bd3b402b3b62ff8e67bfdcd55f4d598a7cb102700000000000016001455385a35cf4268f85656c5f35bf016ea3ade492b000400483045022100b50b8f27ba599e409edce4faecf3bdd816e40dc7d478be5822c76dd75a1f0f0b02206d3ecbedf13626439ad10aa08ed7946809f24ea006ce565bb1abf30e4e7b061101483045022100df6dc8e3629eefad5b1142060a890530e46693c6c6d1b1398df82dd6bb7744c202202a8f4fb0cefe3b7105be8ba750194b336d623d2da098da0e65bb58b127150b3f01695221025c078555a2fc2973842e8bf149a52baa576da0014ea5ab79c3c0c8cfb14ced1f2102100a01a3b78272dc38696b2abd2355e4fb8bd805952493d1c2278d5f0e8eb77d2103deaae4d81e0df7419e877b2a0312e7a2e6675b703228b585dba8dda95adc49c453ae00000000',
+        '0100000001639f78fb7729d09dc6066a6dd81997572d2413c50b703edd5b378166b5466b2d000000000151ffffffff03e8030000000000001976a91482390396aed3dfece64e2ec6ad0a3666b9ad3f0588ac00e1f50500000000220020f15c72562596f74272b576812ba0ac1fb74312ad488629c0a69db68bb0e754cbea030000000000001976a914af911a35998cbd5500f92999495897823e7043c688ac00000000'),
+}
+
 DOC_PAIRS = ["p2pkh", "p2sh-multisig-2-of-2", "p2sh-multisig-invalid-order", "p2sh-p2wpkh", "p2tr", "p2ts"]
 
 # option tables read off btcdeb.cpp:118-130 and tap.cpp:119-126  (long, short, takes-argument)
@@ -335,6 +349,9 @@ def build_bases(repo):
     for p in DOC_PAIRS:
         ttx, tin = txs[p]
         deb("auto-" + p, "", [O("--tx=", ttx, "tx", partner=None), O("--txin=", tin, "txin", partner=0)], [], "tx+txin auto")
+    for g in sorted(GEN_PAIRS):
+        ttx, tin = GEN_PAIRS[g]
+        deb("auto-" + g, "", [O("--tx=", ttx, "tx", partner=None), O("--txin=", tin, "txin", partner=0)], [], "tx+txin auto")
     ttx, tin = txs["p2sh-multisig-2-of-2"]
     deb("select", "", [O("--tx=", ttx, "tx"), O("--txin=", tin, "txin", partner=0), O("--select=", "0", "index", n=2)], [],
         "select")
@@ -468,7 +485,7 @@ def nonhex_positions(s):
     return c
 
 
-def tx_field_devs(hexs, prefix_len=0):
+def tx_field_devs(hexs, prefix_len=0, script_bytes=False):
     """deviations of one transaction hex string -> list of (kind, desc, new hex string)"""
     out = []
     try:
@@ -512,6 +529,12 @@ def tx_field_devs(hexs, prefix_len=0):
                 if b[o] == r:
                     continue
                 out.append(("txfield-script-byte0", "%s[0]=%s" % (name, d), put(f, bytes([r]) + b[o + 1:o + l])))
+            # short scripts of a funding transaction (the output script templates the tools pattern-match on): every byte +-1
+            if script_bytes and l <= 40 and name.startswith("vout"):
+                for k in range(l):
+                    for dlt in (1, -1):
+                        nb = (b[o + k] + dlt) & 0xff
+                        out.append(("txfield-script-byte", "%s[%d]%+d" % (name, k, dlt), put(f, b[o:o + k] + bytes([nb]) + b[o + k + 1:o + l])))
     return out
 
 
@@ -662,7 +685,7 @@ def slot_deviations(base, i, tier):
             except ValueError:
                 pb, old = None, None
             if pb is not None and old is not None and old in pb:
-                for (kind, desc, newhex) in tx_field_devs(val, 0):
+                for (kind, desc, newhex) in tx_field_devs(val, 0, script_bytes=True):
                     try:
                         new = txid_le(bytes.fromhex(newhex))
                     except ValueError:
@@ -797,10 +820,16 @@ def sessions(txs):
         # added after a second round of independently seeded changes pointed at shapes the first six sessions lack:
         ("p2sh-p2wpkh", ["--tx=" + txs["p2sh-p2wpkh"][0], "--txin=" + txs["p2sh-p2wpkh"][1]]),                     # segwit v0 under the default flags
         ("p2sh-shape-nostack", ["[OP_HASH160 0xb472a266d0bd89c13706a4132ccfb16f7c3b9fcb OP_EQUAL]"]),            # P2SH-shaped script, empty stack (hash160 of the empty string)
+        ("p2tr-key-annex", ["--tx=" + GEN_PAIRS["gen-p2tr-key-annex"][0], "--txin=" + GEN_PAIRS["gen-p2tr-key-annex"][1]]),
+        ("p2ts-annex", ["--tx=" + GEN_PAIRS["gen-p2ts-path2-annex"][0], "--txin=" + GEN_PAIRS["gen-p2ts-path2-annex"][1]]),
+        ("throwing-first-op", ["[OP_1ADD OP_1]", "0x0102030405"]),                                                 # the first step fails by throwing (number too long)
         ("noconst", ["-f-CONST_SCRIPTCODE", "[OP_1 OP_DROP OP_2]"]),                                                 # OP_CODESEPARATOR allowed in legacy scripts
         ("push520", ["0x4d0802" + "ab" * 520 + "75"]),                                                             # a 520-byte push in the listing
     ]
     return S
+
+
+FULL_DEPTH_SESSIONS = {"throwing-first-op"}
 
 
 def exec_pair_lines():
